@@ -169,9 +169,10 @@ def framed(spec: Spec, vals: dict, obs: dict, info: dict) -> list[str]:
             fails.append(f"C06 {tid}: has booked work but zero/negative length")
         first, last = min(slots), max(slots)
         # all work inside [start, end], tight: booked in the slot where it starts and where it ends
-        if not (first * g <= o["start"] + EPS and o["start"] < (first + 1) * g):
+        if not (first * g <= o["start"] + EPS and o["start"] <= (first + 1) * g + EPS):
             fails.append(f"C06 {tid}: first booked slot {first} is not the slot of its start {o['start']}")
-        if not (last * g < o["end"] and o["end"] <= (last + 1) * g + EPS):
+        # (a last slot holding less than the rounding tolerance of work may round down to the slot's own begin)
+        if not (last * g <= o["end"] + EPS and o["end"] <= (last + 1) * g + EPS):
             fails.append(f"C06 {tid}: last booked slot {last} is not the slot of its end {o['end']}")
         # long enough to contain the work booked in those slots
         if first != last:
@@ -396,6 +397,103 @@ def booked_on_shift(spec: Spec, vals: dict, obs: dict, info: dict, calendar: Opt
     return fails
 
 
+# ---- C05 ------------------------------------------------------------------------------------
+
+def _limit_seconds(txt: str) -> int:
+    import re
+
+    m = re.match(r"(\d+(?:\.\d+)?)(h|d|min)$", txt)
+    assert m, txt
+    return int(float(m.group(1)) * {"h": 3600, "d": 8 * 3600, "min": 60}[m.group(2)])
+
+
+def limits_respected(spec: Spec, vals: dict, obs: dict, info: dict) -> list[str]:
+    """per calendar day / ISO week (computed here from the spec's start date) the seconds booked on a limited resource,
+    on all members of a limited group, or by all tasks below a limited task never exceed the limit"""
+    from datetime import timedelta
+
+    g = info["g"]
+    fails: list[str] = []
+
+    def period_key(kind: str, slot: int) -> Any:
+        d = spec.start + timedelta(seconds=slot * g)
+        if kind == "dailymax":
+            return d.date().toordinal()
+        iso = d.isocalendar()
+        return (iso[0], iso[1])
+
+    def check(what: str, kind: str, limit_txt: str, entries: list[tuple[int, Any]]) -> None:
+        lim = _limit_seconds(limit_txt)
+        per: dict[Any, Any] = {}
+        for slot, sec in entries:
+            k = period_key(kind, slot)
+            per[k] = per.get(k, 0) + sec
+        for k, tot in per.items():
+            if tot > lim + TOL:
+                fails.append(f"C05 {what}: {tot} s booked in period {k} exceed {kind} {limit_txt}")
+
+    res_children: dict[str, list[str]] = {}
+    for r in spec.resources:
+        res_children.setdefault(r.parent or "", []).append(r.id)
+
+    def leaves_below(rname: str) -> list[str]:
+        kids = res_children.get(rname, [])
+        if not kids:
+            return [rname]
+        out: list[str] = []
+        for k in kids:
+            out.extend(leaves_below(k))
+        return out
+
+    for r in spec.resources:
+        for kind, txt in r.limits.items():
+            entries = []
+            for leaf in leaves_below(r.id):
+                for slot, lst in obs["res"][_leaf_path(spec, leaf)]["ledger"].items():
+                    for _t, sec in lst:
+                        entries.append((slot, sec))
+            check(f"resource {r.id}", kind, txt, entries)
+    for t in spec.tasks:
+        if not t.limits:
+            continue
+        tid = spec.full_id(t)
+        for kind, txt in t.limits.items():
+            entries = []
+            for _rid, r in obs["res"].items():
+                for slot, lst in r["ledger"].items():
+                    for t_id, sec in lst:
+                        if t_id == tid or t_id.startswith(tid + "."):
+                            entries.append((slot, sec))
+            check(f"task {tid}", kind, txt, entries)
+    return fails
+
+
+# ---- C11 ------------------------------------------------------------------------------------
+
+def total_ok(spec: Spec, vals: dict, obs: dict, info: dict) -> list[str]:
+    fails: list[str] = []
+    horizon = (info["size"]) * info["g"]
+    warned = bool(obs.get("warnings"))
+    for t in spec.tasks:
+        tid = spec.full_id(t)
+        if not spec.is_leaf(t):
+            continue
+        o = obs["tasks"][tid]
+        if o["scheduled"]:
+            if o["start"] is None or o["end"] is None:
+                fails.append(f"C11 {tid}: scheduled without dates")
+            elif not (0 <= o["start"] and o["start"] <= o["end"] and o["end"] <= horizon):
+                fails.append(f"C11 {tid}: scheduled outside the horizon or inverted: {o['start']} .. {o['end']} (horizon {horizon})")
+        elif not warned and obs.get("warnings") is not None and not obs.get("replay"):
+            fails.append(f"C11 {tid}: left unscheduled without any warning")
+    steps = obs.get("steps")
+    if steps is not None:
+        n_leaf = sum(1 for t in spec.tasks if spec.is_leaf(t))
+        if steps > (n_leaf + 1) * (info["size"] + 2) * 3:
+            fails.append(f"C11: {steps} slot steps for {n_leaf} leaves and {info['size']} slots - not proportional to project size")
+    return fails
+
+
 ORACLES = {
     "C01": no_double_booking,
     "C03": effort_exact,
@@ -404,4 +502,6 @@ ORACLES = {
     "C08": no_idle_forward,
     "C10": containers_ok,
     "C02": booked_on_shift,
+    "C05": limits_respected,
+    "C11": total_ok,
 }
